@@ -1,7 +1,261 @@
-//! Implementation-side evaluator for the `command` correspondence checks (see props/).
+//! Implementation-side evaluator for the `command` correspondence checks (props/C15.py).
+//!
+//! Everything except the last step goes through nextest's public API: the cargo `[env]` table and
+//! the target runner come from real config files / `--config` options read by
+//! `CargoConfigs::new_with_isolation`, the package metadata from a real `PackageGraph`, the test
+//! list from `TestList::new`; the command itself is built by the real
+//! `TestInstance::make_command` (crate-private, reached through hook H5
+//! `list::verif_command::make_command`).  With double-spawn on, the joined argument string is
+//! additionally split with the real `shell_words::split`, which is what
+//! `DoubleSpawnOpts::exec` in cargo-nextest does before `exec`.
+use crate::common::strs;
+use camino::Utf8PathBuf;
+use guppy::{graph::PackageGraph, PackageId};
+use nextest_filtering::{CompiledExpr, EvalContext};
+use nextest_metadata::{
+    BuildPlatform, FilterMatch, RustBinaryId, RustTestBinaryKind, RustTestCaseSummary,
+};
+use nextest_runner::{
+    cargo_config::{CargoConfigs, EnvironmentMap},
+    double_spawn::DoubleSpawnInfo,
+    list::{
+        verif_command, RustBuildMeta, RustTestArtifact, RustTestSuite, RustTestSuiteStatus,
+        TestExecuteContext, TestInstance, TestList,
+    },
+    platform::BuildPlatforms,
+    reuse_build::PathMapper,
+    target_runner::TargetRunner,
+    test_filter::{FilterBound, RunIgnored, TestFilterBuilder, TestFilterPatterns},
+};
 use serde_json::{json, Value};
+use std::{
+    collections::{BTreeMap, BTreeSet},
+    ffi::OsString,
+};
+
+/// Sets process environment variables for the duration of a case and restores the previous state
+/// afterwards (also on panic).
+struct EnvGuard {
+    saved: Vec<(String, Option<OsString>)>,
+}
+
+impl EnvGuard {
+    fn set(pairs: &[(String, String)]) -> Self {
+        let mut saved = Vec::new();
+        for (k, v) in pairs {
+            saved.push((k.clone(), std::env::var_os(k)));
+            std::env::set_var(k, v);
+        }
+        Self { saved }
+    }
+}
+
+impl Drop for EnvGuard {
+    fn drop(&mut self) {
+        for (k, old) in self.saved.drain(..).rev() {
+            match old {
+                Some(v) => std::env::set_var(&k, v),
+                None => std::env::remove_var(&k),
+            }
+        }
+    }
+}
+
+struct DirGuard(Utf8PathBuf);
+
+impl Drop for DirGuard {
+    fn drop(&mut self) {
+        let _ = std::fs::remove_dir_all(&self.0);
+    }
+}
+
+fn pairs(v: &Value) -> Vec<(String, String)> {
+    v.as_array()
+        .map(|a| {
+            a.iter()
+                .map(|p| {
+                    (
+                        p[0].as_str().unwrap().to_owned(),
+                        p[1].as_str().unwrap().to_owned(),
+                    )
+                })
+                .collect()
+        })
+        .unwrap_or_default()
+}
+
+fn os(s: OsString) -> String {
+    s.into_string()
+        .unwrap_or_else(|s| s.to_string_lossy().into_owned())
+}
 
 pub fn run(case: &Value) -> Value {
-    let _ = case;
-    json!({ "error": "not implemented" })
+    match case["op"].as_str().unwrap_or("") {
+        "make" => make(case),
+        // which variable carries the dynamic library path on this platform, and what the harness
+        // process itself inherited for a list of keys
+        "probe" => {
+            let keys = strs(&case["keys"]);
+            json!({
+                "seen": keys.iter().map(|k| json!([k, std::env::var_os(k).map(os)])).collect::<Vec<_>>(),
+            })
+        }
+        other => json!({ "error": format!("unknown op {other}") }),
+    }
+}
+
+fn make(case: &Value) -> Value {
+    let root = Utf8PathBuf::from(case["root"].as_str().unwrap());
+    assert!(root.is_absolute(), "root must be absolute");
+    let _ = std::fs::remove_dir_all(&root);
+    std::fs::create_dir_all(&root).expect("create root");
+    let _dir_guard = DirGuard(root.clone());
+
+    // config files, build script output, ... (relative to root)
+    for (rel, content) in pairs(&case["files"]) {
+        let p = root.join(rel);
+        std::fs::create_dir_all(p.parent().unwrap()).expect("mkdir");
+        std::fs::write(&p, content).expect("write file");
+    }
+    let config_cwd = root.join(case["config_cwd"].as_str().unwrap_or(""));
+    std::fs::create_dir_all(&config_cwd).expect("mkdir cwd");
+
+    // inherited environment of the nextest process: set before anything nextest does
+    let inherited = pairs(&case["inherited"]);
+    let _env_guard = EnvGuard::set(&inherited);
+    let seen_inherited: Vec<Value> = inherited
+        .iter()
+        .map(|(k, _)| json!([k, std::env::var_os(k).map(os)]))
+        .collect();
+
+    // cargo configuration: real discovery, isolated below root
+    let configs = match CargoConfigs::new_with_isolation(
+        strs(&case["cli_configs"]),
+        &config_cwd,
+        &root,
+        Vec::new(),
+    ) {
+        Ok(c) => c,
+        Err(e) => return json!({ "error": format!("cargo configs: {e:?}") }),
+    };
+    let env = EnvironmentMap::new(&configs);
+
+    let build_platforms = BuildPlatforms::new_with_no_target().expect("host platform");
+    let target_runner = match TargetRunner::new(&configs, &build_platforms) {
+        Ok(t) => t,
+        Err(e) => return json!({ "error": format!("target runner: {e:?}") }),
+    };
+
+    // package metadata: a real guppy graph from caller-supplied `cargo metadata` JSON
+    let graph = match PackageGraph::from_json(case["metadata"].as_str().unwrap()) {
+        Ok(g) => g,
+        Err(e) => return json!({ "error": format!("package graph: {e}") }),
+    };
+    let package_id = PackageId::new(case["package_id"].as_str().unwrap());
+    let package = graph.metadata(&package_id).expect("package in graph");
+
+    let target_dir = root.join("target");
+    let mut rbm = RustBuildMeta::new(target_dir, build_platforms);
+    if let Some(out_dir) = case["build_script_out_dir"].as_str() {
+        rbm.build_script_out_dirs
+            .insert(package_id.repr().to_owned(), Utf8PathBuf::from(out_dir));
+    }
+    for p in strs(&case["base_output_dirs"]) {
+        rbm.base_output_directories.insert(Utf8PathBuf::from(p));
+    }
+    let rbm = rbm.map_paths(&PathMapper::noop());
+
+    let double_spawn = if case["double_spawn"].as_bool().unwrap_or(false) {
+        DoubleSpawnInfo::try_enable()
+    } else {
+        DoubleSpawnInfo::disabled()
+    };
+    let profile = case["profile"].as_str().unwrap_or("default").to_owned();
+    let ctx = TestExecuteContext {
+        profile_name: &profile,
+        double_spawn: &double_spawn,
+        target_runner: &target_runner,
+    };
+
+    let filter = TestFilterBuilder::new(
+        RunIgnored::Default,
+        None,
+        TestFilterPatterns::default(),
+        Vec::new(),
+    )
+    .expect("filter builder");
+    let all = CompiledExpr::ALL;
+    let ecx = EvalContext {
+        default_filter: &all,
+    };
+    let test_list = match TestList::new(
+        &ctx,
+        Vec::<RustTestArtifact<'_>>::new(),
+        rbm,
+        &filter,
+        root.clone(),
+        env,
+        &ecx,
+        FilterBound::All,
+        1,
+    ) {
+        Ok(t) => t,
+        Err(e) => return json!({ "error": format!("test list: {e}") }),
+    };
+
+    let name = case["name"].as_str().unwrap().to_owned();
+    let ignored = case["ignored"].as_bool().unwrap_or(false);
+    let test_info = RustTestCaseSummary {
+        ignored,
+        filter_match: FilterMatch::Matches,
+    };
+    let mut test_cases = BTreeMap::new();
+    test_cases.insert(name.clone(), test_info.clone());
+    let non_test_binaries: BTreeSet<(String, Utf8PathBuf)> = pairs(&case["non_test_binaries"])
+        .into_iter()
+        .map(|(n, p)| (n, Utf8PathBuf::from(p)))
+        .collect();
+    let suite = RustTestSuite {
+        binary_id: RustBinaryId::new("verif::bin"),
+        binary_path: Utf8PathBuf::from(case["binary_path"].as_str().unwrap()),
+        package,
+        binary_name: "bin".to_owned(),
+        kind: RustTestBinaryKind::new("lib".to_owned()),
+        cwd: Utf8PathBuf::from(case["cwd"].as_str().unwrap()),
+        build_platform: match case["platform"].as_str() {
+            Some("host") => BuildPlatform::Host,
+            _ => BuildPlatform::Target,
+        },
+        non_test_binaries,
+        status: RustTestSuiteStatus::Listed { test_cases },
+    };
+    let instance = TestInstance {
+        name: &name,
+        suite_info: &suite,
+        test_info: &test_info,
+    };
+    let extra = strs(&case["extra"]);
+
+    let view = verif_command::make_command(&instance, &ctx, &test_list, &extra);
+
+    let args: Vec<String> = view.args.into_iter().map(os).collect();
+    // what the launcher does with its last positional argument
+    let launcher = if double_spawn.current_exe().is_some() {
+        match args.last().map(|a| shell_words::split(a)) {
+            Some(Ok(ws)) => json!({ "ok": ws }),
+            Some(Err(_)) => json!({ "err": "parse" }),
+            None => json!({ "err": "no args" }),
+        }
+    } else {
+        Value::Null
+    };
+    json!({
+        "program": os(view.program),
+        "args": args,
+        "cwd": view.cwd.map(|p| os(p.into_os_string())),
+        "envs": view.envs.into_iter().map(|(k, v)| json!([os(k), v.map(os)])).collect::<Vec<_>>(),
+        "seen_inherited": seen_inherited,
+        "launcher": launcher,
+        "double_spawn_active": double_spawn.current_exe().is_some(),
+    })
 }
